@@ -12,7 +12,7 @@ E3="E3 histmc: breadth-first / exhaustive enumeration of API histories (or gener
 C = {
  "C01": ("explicit-state enumeration of builder states (E1) + preemption-bounded exhaustive schedule exploration of real dispatches (E2)",
    "Every registration sequence inside the stated alphabets/depths is built with the real builder and its executed layout checked for isolation (batches count with the harness's own union); every distinct small plan is then dispatched (dispatch, dispatch_par, dispatch_seq, async; 1-2 dispatches) under every schedule within the preemption bound with shadow reader/writer windows and the real borrow flags as backstop.",
-   "Bounded: depth of registration sequences, 3-4 resources, preemption bound (reported per job); pool sizes are over-approximated by an unbounded stand-in pool (DESIGN 6.1); rayon / atomic_refcell internals trusted. KF2 (thread-local system inside a batch) is a recorded finding."),
+   "Bounded: depth of registration sequences, 3-4 resources, preemption bound (reported per job); pool sizes are over-approximated by an unbounded stand-in pool (DESIGN 6.1); the explored event traces are replayed on the unmodified crate with real rayon (E4) and counted in traces_validated_against_impl; plan-level findings are escalated to a concrete schedule; rayon / atomic_refcell internals trusted. KF2 (thread-local system inside a batch) is a recorded finding."),
  "C02": ("explicit-state enumeration of builder states (E1) + bounded exhaustive schedule exploration with resource-less dependents (E2)",
    "For every sequence with dependency lists (0..2 earlier names, repeated names, names in front of barriers) the dependent is ordered after its dependency in the executed layout; for every distinct small dependency plan every schedule within the bound shows Release(A) before FetchBegin(B), including all schedules that park A inside run.",
    "Bounded depth / preemption bound; stand-in pool model (DESIGN 5.2, bound to real rayon by E4 when built)."),
@@ -21,10 +21,10 @@ C = {
    "Bounded depth / preemption bound."),
  "C04": ("explicit-state enumeration with run counters (E1) + bounded exhaustive schedule exploration (E2)",
    "In every builder state: slots = registered systems, each identity exactly once, and the script [dispatch_seq, dispatch_par, dispatch, dispatch_thread_local] yields exactly the expected counters (batches: times x outer runs; MultiDispatcher: plan()); groups filled to capacity and families up to n=64|400; counters also hold at the end of every explored schedule.",
-   "Bounded depth; parametric families instead of arbitrary n."),
+   "Bounded depth; parametric families instead of arbitrary n; pool-size dependence covered by default pools of 1..3 threads in E1 and a sweep of widths 2..7 over pools of 1..4 threads in E2."),
  "C05": ("bounded exhaustive schedule exploration with a sequential twin (E2)",
    "For every distinct small plan and every schedule within the preemption bound, the final world, every system's observation log and local state equal those of a twin dispatcher driven by dispatch_seq (non-commutative folds make any reordering visible); distinct outcomes per scenario are counted.",
-   "Preemption bound; plan sizes <= 3-4 systems; the `parallel`-off build comparison is part of C19's configuration digest; KF2 consequence recorded."),
+   "Preemption bound; larger plans are decided through the plan-level isolation invariant (candidates found by E1 must be exhibited as a diverging schedule by E2); the crate built without `parallel` recomputes layout and outcome of ~27 000 exported sequences; KF2 consequence recorded."),
  "C06": ("exhaustive enumeration of a generated program space, each program run against the real crate (E3)",
    "Every composition inside the bounds (tuple arity 1..26 x position x kind, kind vectors for arity <= 3, nestings <= depth 3, derived named/tuple/generic structs) is generated as a Rust type, instantiated, and probed: reads()/writes(), StaticAccessor, setup on empty and populated worlds, borrow state of every cell while the value lives (every presence subset of Option-reached resources) and after drop.",
    "Quick tier uses a reduced but still exhaustive-within-itself program set (3 kinds per position); thorough the full one. Expected access is computed from the leaf kinds by the generator."),
@@ -48,7 +48,7 @@ C = {
    "Bounded depth / preemption bound; task identity of the stand-in pool."),
  "C13": ("explicit-state enumeration with setup/dispose counters (E1)",
    "For every sequence with batches nested and thread-local systems: after Dispatcher::setup every system has setup count 1, after dispose dispose count 1 (defect found and repaired: dispose was not forwarded into batches).",
-   "World side of setup (defaults / non-clobbering) is covered per composition by C06's probes."),
+   "Statically typed systems and declaring batch controllers exercise the library's own setup path: for every subset of pre-inserted resources the world after setup / second setup / setup-remove-setup is compared with the expectation; per-composition setup is C06's."),
  "C14": ("bounded exhaustive schedule exploration with injected panics (E2)",
    "Every plan x every single (thorough: pair of) panicking system(s) x {fetch, run} x {dispatch, dispatch_seq}, every schedule within the bound incl. run-or-skip of not-yet-started siblings: payload is a panicking system's, no dependent runs, nothing runs twice, no cell stays borrowed, the next dispatch runs everything exactly once and ends in the state a sequential dispatch from the same start state produces.",
    "Preemption bound; sibling skipping over-approximates every pool size."),
@@ -66,7 +66,7 @@ C = {
    "Bounded depth."),
  "C19": ("explicit-state enumeration with metamorphic transformations (E1)",
    "For every sequence: identical layout under a second build, three renamings (fresh, sanitiser-hostile, rotated), reversed / duplicated / rotated read-write lists, and 12|360 injective relabellings of the resources across types and dynamic ids.",
-   "'Every process' and the `parallel`-off configuration are compared through digests when the nopar engine is built; hash seeds cannot be enumerated."),
+   "The (sequence -> layout, outcome) table of ~27 000 sequences is computed by three separate processes (different hash seeds) and by the crate built without `parallel`, and compared; hash seeds cannot be enumerated, three are sampled."),
  "C20": ("explicit-state enumeration of builder states with a parser for the printed plan (E1)",
    "For every sequence incl. unnamed systems and names with spaces/dashes/slashes: {:?} and {:#?} never panic, parse as seq/par/seq, and the token at (stage, group, position) is the sanitised name of the system the executed layout has there (placeholder for unnamed). Defect found and repaired (unwrap on unnamed systems).",
    "Bounded depth."),
